@@ -113,6 +113,38 @@ func init() {
 		Old: "\tif len(s.aofbuf) > 0 {\n\t\t_, err := s.aof.Write(s.aofbuf)", New: "\tif len(s.aofbuf) > 0 {\n\t\tif len(s.aofbuf) > 1<<30 {\n\t\t\ts.aofbuf = s.aofbuf[:0]\n\t\t}\n\t\t_, err := s.aof.Write(s.aofbuf)",
 		Expect: "R8.flush-complete", Key: "write-before-truncate", Why: "buffer can be dropped unwritten"})
 
+	// ---- R18 ---------------------------------------------------------------
+	mutant(&Mutant{Name: "eval-late-clear", Props: []string{"C18"}, File: fScripts,
+		Old: "\t\t\t\"EVAL_CMD\": lua.LString(msg.Command()),\n\t\t})\n\t// Clear the per-call globals on every exit, including the error returns\n\t// below; otherwise the state goes back to the pool with EVAL_CMD still\n\t// set and the next WHEREEVAL script using it could run write commands.\n\tdefer luaSetRawGlobals(",
+		New: "\t\t\t\"EVAL_CMD\": lua.LString(msg.Command()),\n\t\t})\n\tif scriptIsSha && len(script) != 40 {\n\t\treturn NOMessage, errShaNotFound\n\t}\n\tdefer luaSetRawGlobals(",
+		Expect: "R18.per-call-globals", Key: "cmdEvalUnified", Why: "an early return between the set and the deferred clear (shape of the repaired defect)"})
+	mutant(&Mutant{Name: "sandbox-open-io", Props: []string{"C18"}, File: fScripts,
+		Old: "\t\t{lua.OsLibName, openOsSubset}, // See below for impl, only opens clock/difftime\n", New: "\t\t{lua.OsLibName, openOsSubset}, // See below for impl, only opens clock/difftime\n\t\t{lua.IoLibName, lua.OpenIo},\n",
+		Expect: "R18.sandbox-env", Key: "OpenIo", Why: "the io library is opened"})
+	mutant(&Mutant{Name: "sandbox-os-getenv", Props: []string{"C18"}, File: fScripts,
+		Old: "\t\t\"difftime\": osDiffTime,\n\t}", New: "\t\t\"difftime\": osDiffTime,\n\t\t\"getenv\":   osClock,\n\t}",
+		Expect: "R18.sandbox-env", Key: "os.getenv", Why: "a new name in the os table"})
+	mutant(&Mutant{Name: "sandbox-sha1-reads-file", Props: []string{"C18"}, File: fScripts,
+		Old: "\t\tshaSum := Sha1Sum(ls.ToString(1))\n", New: "\t\tshaSum := Sha1Sum(ls.ToString(1))\n\t\tif b, err := os.ReadFile(ls.ToString(2)); err == nil {\n\t\t\tshaSum = Sha1Sum(string(b))\n\t\t}\n",
+		Edits: []Edit{{fScripts, "import (\n\t\"bytes\"", "import (\n\t\"os\"\n\t\"bytes\""}},
+		Expect: "R18.sandbox-env", Key: "reach/tile38.sha1hex", Why: "a script function reads files"})
+	mutant(&Mutant{Name: "globals-unlocked", Props: []string{"C18"}, File: fScripts,
+		Old: "\tL.SetMetatable(L.Get(lua.GlobalsIndex), mt)\n", New: "\t_ = mt\n",
+		Expect: "R18.globals-locked", Key: "metatable-installed", Why: "new globals can be created and survive in the pool"})
+	mutant(&Mutant{Name: "ro-read-list-del", Props: []string{"C18", "C15"}, File: fScripts,
+		Old: "\t\treturn resp.NullValue(), errReadOnly\n\n\tcase \"get\", \"keys\",", New: "\t\treturn resp.NullValue(), errReadOnly\n\n\tcase \"jdel\", \"get\", \"keys\",",
+		Expect: "R18.ro-effect-free", Key: "jdel", Why: "EVALRO can run a mutating command"})
+	mutant(&Mutant{Name: "evalro-nolock", Props: []string{"C18", "C07"}, File: fServer,
+		Old: "\"chans\", \"search\", \"ttl\", \"bounds\", \"server\", \"info\", \"type\", \"jget\",\n\t\t\"evalro\", \"evalrosha\", \"role\",", New: "\"chans\", \"search\", \"ttl\", \"bounds\", \"server\", \"info\", \"type\", \"jget\",\n\t\t\"role\",",
+		Edits: []Edit{{fServer, "\tcase \"evalna\", \"evalnasha\":\n\t\t// No locking for scripts", "\tcase \"evalna\", \"evalnasha\", \"evalro\", \"evalrosha\":\n\t\t// No locking for scripts"}},
+		Expect: "R18.script-locks", Key: "lock-table/evalro", Why: "EVALRO runs without the shared lock"})
+	mutant(&Mutant{Name: "whereeval-close-no-clear", Props: []string{"C18"}, File: "internal/server/token.go",
+		Old: "func (whereeval whereevalT) Close() {\n\tluaSetRawGlobals(\n\t\twhereeval.luaState, map[string]lua.LValue{\n\t\t\t\"ARGV\": lua.LNil,\n\t\t})\n", New: "func (whereeval whereevalT) Close() {\n",
+		Expect: "R18.per-call-globals", Key: "Close", Why: "ARGV of a WHEREEVAL survives in the pooled state"})
+	mutant(&Mutant{Name: "evalcmd-from-arg", Props: []string{"C18"}, File: fScripts,
+		Old: "\t\t\t\"EVAL_CMD\": lua.LString(msg.Command()),\n\t\t})\n\t// Clear", New: "\t\t\t\"EVAL_CMD\": lua.LString(\"eval\"),\n\t\t})\n\t// Clear",
+		Expect: "R18.class-binding", Key: "eval-cmd-setter", Why: "EVALRO scripts run in the read-write class"})
+
 	// ---- neutral variants --------------------------------------------------
 	mutant(&Mutant{Name: "neutral-rename-write-flag", Props: []string{"C03", "C07", "C15"}, Neutral: true, File: fScripts,
 		Old: "func (s *Server) luaTile38NonAtomic(msg *Message) (resp.Value, error) {\n\tvar write bool\n", New: "func (s *Server) luaTile38NonAtomic(msg *Message) (resp.Value, error) {\n\tvar write bool\n\t_ = \"neutral\"\n",
